@@ -504,12 +504,114 @@ func runC14() {
 			}
 		}
 	}
+	// ---- operands written as SOURCE LITERALS (an integer literal is an int, whatever the other operand's kind), in both
+	//      operand orders, typed and untyped, optimizer on; and left-associative CHAINS with two literals (judged by
+	//      applying the rule twice: no re-association)
+	run1 := func(src string, typed bool, x interface{}) (interface{}, error, bool) {
+		env := map[string]interface{}{"a": x}
+		var p *vm.Program
+		var err error
+		if typed {
+			p, err = expr.Compile(src, expr.Env(env))
+		} else {
+			p, err = expr.Compile(src)
+		}
+		if err != nil {
+			return nil, err, false
+		}
+		out, rerr := vm.Run(p, env)
+		return out, rerr, true
+	}
+	judge := func(src string, typed bool, x interface{}, wants []interface{}, werrs []string, known bool, what string) {
+		got, err, compiled := run1(src, typed, x)
+		rep.Evaluations++
+		rep.hist(what)
+		if !compiled {
+			if len(werrs) > 0 && werrs[0] == "invalid" {
+				return // float % : rejected at compile time when typed
+			}
+			rep.fail(Failure{Key: "C14-typed-reject", What: "compilation rejected numeric operands", Input: map[string]interface{}{"expr": src, "a": fmtVal(x), "typed": typed}, Want: "accepted", Got: err.Error()})
+			return
+		}
+		ok := false
+		for i := range wants {
+			if werrs[i] == "" && err == nil && sameValue(got, wants[i]) {
+				ok = true
+			}
+			if werrs[i] != "" && errClass(err) == werrs[i] {
+				ok = true
+			}
+		}
+		if !ok {
+			fk := "C14-other"
+			if known {
+				fk = "C14-rank"
+			}
+			rep.fail(Failure{Key: fk, What: "run-time result differs from the promotion rule (" + what + ")",
+				Input: map[string]interface{}{"expr": src, "a": fmtVal(x), "typed": typed}, Want: fmt.Sprintf("%v %v", wants, werrs), Got: fmt.Sprintf("%s / %v", fmtVal(got), err)})
+		}
+	}
+	kInt := &kinds[5]
+	lits := []int{0, 1, -1, 2, 127, 128, 255, 256, 300, -129, 32768, 65536, 2147483648, 4294967296, -5, 9223372036854775807}
+	for xi := range kinds {
+		kx := &kinds[xi]
+		gx := gridOf(kx, rng, 0)
+		for _, op := range c14ops {
+			for _, l := range lits {
+				ls := fmt.Sprint(l)
+				if l < 0 {
+					ls = "(" + ls + ")"
+				}
+				for _, x := range gx {
+					for _, typed := range []bool{true, false} {
+						w, e := refRule(op.src, x, l)
+						judge("a "+op.src+" "+ls, typed, x, w, e, inKnownRank(kx, kInt), "literal right operand")
+						w, e = refRule(op.src, l, x)
+						judge(ls+" "+op.src+" a", typed, x, w, e, inKnownRank(kInt, kx), "literal left operand")
+					}
+				}
+			}
+		}
+		// chains: (a op l1) op l2, evaluated left to right
+		for _, ch := range []struct {
+			op     string
+			l1, l2 int
+		}{{"+", 1, 1}, {"-", 1, 1}, {"*", 3, 3}, {"+", 1, 2}, {"+", 0, 0}, {"*", 1, 1}, {"/", 1, 1}} {
+			for _, x := range append(gx, edgeFloats(kx)...) {
+				w1, e1 := refRule(ch.op, x, ch.l1)
+				var wants []interface{}
+				var werrs []string
+				for i := range w1 {
+					if e1[i] != "" {
+						wants, werrs = append(wants, nil), append(werrs, e1[i])
+						continue
+					}
+					w2, e2 := refRule(ch.op, w1[i], ch.l2)
+					wants, werrs = append(wants, w2...), append(werrs, e2...)
+				}
+				for _, typed := range []bool{true, false} {
+					judge(fmt.Sprintf("a %s %d %s %d", ch.op, ch.l1, ch.op, ch.l2), typed, x, wants, werrs, inKnownRank(kx, kInt), "chain of two literals")
+				}
+			}
+		}
+	}
 	rep.Distinct = len(distinct)
 	rep.Exhaustive = true
-	rep.Rule = "exhaustive over the 12x12 ordered kind pairs x 12 binary operators (10 helpers, !=, **) and 12 kinds x unary minus; per kind a grid of boundary values (0, +-1, extrema, values that truncate or change sign under conversion, non-representable float32 values, NaN, infinities) plus seeded random values; every value pair of the grids is run through expr (untyped and Env-typed compilation) and judged against Go's own conversion+operator after the property's rank; distinct_nontrivial counts distinct (op, x, y) with operands of two different kinds; a seeded sample per (helper, kx, ky) is also evaluated in the Coq model instantiated with the regenerated table"
+	rep.Rule = "exhaustive over the 12x12 ordered kind pairs x 12 binary operators (10 helpers, !=, **) and 12 kinds x unary minus; per kind a grid of boundary values (0, +-1, extrema, values that truncate or change sign under conversion, non-representable float32 values, NaN, infinities) plus seeded random values; every value pair of the grids is run through expr (untyped and Env-typed compilation) and judged against Go's own conversion+operator after the property's rank; distinct_nontrivial counts distinct (op, x, y) with operands of two different kinds; a seeded sample per (helper, kx, ky) is also evaluated in the Coq model instantiated with the regenerated table; plus 12 kinds x 12 operators x 16 integer LITERALS in both operand orders and 7 left-associative chains of two literals (floats at 2^24 / 2^53 / 1e16 included), typed and untyped with the optimizer on, judged by the same rule with the literal as an int"
 	for i := 0; i < 6 && i < len(cases); i++ {
 		rep.Samples = append(rep.Samples, cases[(i*7919)%len(cases)])
 	}
 	rep.writeShards("cases_c14", "From Coq Require Import ZArith List Floats.\nRequire Import X.Base.Num X.gen.GenHelpers X.Corr.CorrC14.\nImport ListNotations.\nOpen Scope Z_scope.\n", "c14case", "c14_mismatches", cases)
 	rep.write()
+}
+
+// floats at the edge of exact integer representation (two roundings differ from one)
+func edgeFloats(k *kindInfo) []interface{} {
+	switch k.name {
+	case "float32":
+		return []interface{}{float32(16777216), float32(-16777216), float32(33554432)}
+	case "float64":
+		return []interface{}{float64(9007199254740992), float64(1e16), float64(-9007199254740992), float64(0.1)}
+	}
+	return nil
 }
